@@ -223,6 +223,20 @@ func (v *VerifLoop) Tick() {
 	}
 }
 
+// verifNoProbe is the event handler with the per-second topology probe switched off.
+type verifNoProbe struct{ EventHandler }
+
+func (verifNoProbe) OnTicker() {}
+
+// TickNoProbe runs eventloop.ticker() - the application of an adopted topology to pools and slot
+// table - without the probe that OnTicker would send afterwards (Tick does both).
+func (v *VerifLoop) TickNoProbe() {
+	h := v.el.eventHandler
+	v.el.eventHandler = verifNoProbe{h}
+	defer func() { v.el.eventHandler = h }()
+	v.Tick()
+}
+
 // MsgTimeout runs eventloop.msgTimeout().
 func (v *VerifLoop) MsgTimeout() { v.el.msgTimeout() }
 
